@@ -151,3 +151,23 @@ def finish(prop, tier, t0, out, mc, reports, scn_file, nscn, own, assumptions, e
     cov.update(extra_cov)
     vlib.write_evidence(prop, tier, "model_checking", cov, time.time() - t0, len(out.violations), assumptions)
     return rc
+
+
+def replay(prop, path, own, trace_module="Trace_LanceTable"):
+    """bin/check Cxx --replay <file>: re-run the stored scenario on the current tree and judge it again."""
+    case = json.load(open(path)).get("case", {})
+    scenario = case.get("scenario")
+    if not scenario:
+        print("replay file holds no scenario (design-level finding): re-run the check instead")
+        return 2
+    out = vlib.Outcome(prop)
+    reports, scn_file, _ = run_scenarios(prop, "replay", [scenario], shards=1, trace_module=trace_module)
+    for tf, rep in reports:
+        for b in rep["bad"]:
+            pos, scn, i, op, inv, cls = b
+            print(f"step {i} {op}: {inv} {cls}")
+            if inv in own:
+                out.report({"invariant": inv, "op": op, "class": cls} if cls else {"invariant": inv, "op": op},
+                           f"{inv} ({cls}) violated by {op} at step {i} of the replayed scenario", {"scenario": scenario, "step": i})
+        print("events:", rep["events"], "violations:", len(rep["bad"]))
+    return out.finish()
